@@ -61,6 +61,16 @@ def lane_terms(fn):
             o = operand
             if o['k'] in ('icast', 'cast'):
                 width = rw.SIZEOF.get(o['to'].replace('const ', ''))
+            # the byte must enter the arithmetic zero-extended: the element itself unsigned 8-bit, or first
+            # converted to an unsigned 8-bit type
+            chain = []
+            oo = o
+            while oo['k'] in ('icast', 'cast'):
+                if oo.get('ck') == 'IntegralCast':
+                    chain.append((oo['from'].replace('const ', ''), oo['to'].replace('const ', '')))
+                oo = oo['e']
+            if chain and chain[-1][0] in ('char', 'signed char') and chain[-1][1] != 'unsigned char':
+                problems.append('byte is read through a signed type (%s): bytes >= 0x80 are sign-extended' % chain[-1][0])
             o = ir.strip_all_casts(o)
             k = None
             if o['k'] == 'idx':
@@ -159,8 +169,18 @@ def rules(chk, db):
         size_t = rw.SIZEOF.get(t)
         direct = [c for c in ir.calls(f['body']) if (db.callee(f, c) or {}).get('fid') is not None and
                   (db.callee(f, c)['fid'], id(db.callee(f, c)['_tu'])) in helpers]
+        rets_all = [y for y in ir.walk(f['body']) if y.get('k') == 'ret']
+        conds = [y for y in ir.walk(f['body']) if y.get('k') in ('if', 'switch', 'cond', 'for', 'while')]
+        if len(rets_all) != 1 or conds:
+            chk.bad('PU', where, '%s: %d return statements / %d branches: some value bypasses the byte-order conversion' % (
+                ir.fn_label(f)[:70], len(rets_all), len(conds)), function=ir.fn_label(f))
+            continue
         if not direct:
-            continue     # To* forwarding functions: covered by PB
+            # To* forwarding functions: the single return must be the same-endianness From* of the argument
+            r = ir.strip_all_casts(rets_all[0]['e'])
+            okf = r.get('k') == 'call' and len(r['args']) == 1 and ir.strip_all_casts(r['args'][0]).get('id') == f['params'][0]['id']
+            chk.decide(okf, 'PU', where, '%s forwards its argument unchanged: %s' % (ir.fn_label(f)[:70], okf), function=ir.fn_label(f))
+            continue
         call = direct[0]
         h = db.callee(f, call)
         n = int(re.search(r'\[(\d+)\]', h['params'][0]['t']).group(1))
